@@ -15,7 +15,7 @@ def suites(tier):
     q = tier == "quick"
     jobs = []
     for tail in ((0, 2) if q else (0, 1, 2, 4, 5)):
-        cfg = dict(tail=tail, ops=7 if q else 9)
+        cfg = dict(tail=tail, ops=(8 if tail else 7) if q else 9)
         jobs.append(dict(id=jid("iso", cfg), func="zzH_C06_chunks", cfg=cfg))
     s1 = src_suite("chunks", jobs, chunkSize=3)
     cfg = dict(ops=2 if q else 4)
